@@ -5,6 +5,8 @@ import OjgVerif.JPText.PrecTriplesB
 import OjgVerif.JPText.PrecTriplesC
 import OjgVerif.JPText.LemmasExpr
 import OjgVerif.JPText.PrecFilterExpr
+import OjgVerif.JPText.LemmasPrec
+import OjgVerif.JPText.LemmasEqn
 /-! # C14 — JSONPath and script text forms round-trip
 
 Model: `JPText/Print.lean` (the printers), `JPText/Parse.lean` (jp/parse.go), over the regenerated
@@ -181,5 +183,68 @@ expression and printed identically -/
 theorem filter_expr_pairs_all :
     (filterExprTrees.all fun s => roundTripsExpr false s.filterExpr && roundTripsExpr true s.filterExpr) = true :=
   filterExpr_all
+
+/-! ## evaluation order, trees of ANY size: the precedence-correction pass undoes the reader's flattening -/
+
+/-- **`precedentCorrect`, all trees.** `readEq` reads `a0 o1 a1 o2 a2 …` into one right-nested chain
+whatever the operators are (`chainify`: that flattening, at every depth — inside parentheses, `!`, call
+arguments). For EVERY properly parenthesised tree `g` of any size and any operators (`Eqn.pd`: each infix
+node binds at least as loosely as its left operand and strictly more loosely than its right operand, a
+parenthesis being a `group` node; calls and `!` have precedence number 0 as in the regenerated table),
+`precedentCorrect`, run with the fuel the entry points use, returns exactly `g`: the grouping the
+printers' parentheses express is the grouping the parser reconstructs. By induction (rotation lemma,
+chain lemma, uniqueness of the properly parenthesised tree of a token sequence); no enumeration. -/
+theorem prec_correct_general (g : Eqn) (hp : g.pd = true) :
+    precCorrect (precFuel (chainify g)) (chainify g) = some g :=
+  precCorrect_chainify g hp
+
+/-- `(1 + 2 * 3 - (4 - 5)) && !(6 || 7)` is properly parenthesised; its flattening is one chain -/
+example : Eqn.pd (.bin Gen.JpOps.op_and
+      (.bin Gen.JpOps.op_sub
+        (.bin Gen.JpOps.op_add (.val (.int 1)) (.bin Gen.JpOps.op_mult (.val (.int 2)) (.val (.int 3))))
+        (.un Gen.JpOps.op_group (.bin Gen.JpOps.op_sub (.val (.int 4)) (.val (.int 5)))))
+      (.un Gen.JpOps.op_not (.un Gen.JpOps.op_group (.bin Gen.JpOps.op_or (.val (.int 6)) (.val (.int 7)))))) = true := by
+  decide
+
+/-! ## equations of ANY size: `Equation.String` is read back by `MustParseEquation` -/
+
+/-- **C14, `Equation.String`, all sizes.** For EVERY equation `e` built from `Not` and the 19 binary
+constructors (`Eq … Regex`, `Match`, `Search`; any nesting, any size) over int64, boolean, null, Nothing
+and string constants (any bytes): `Equation.String` succeeds, `MustParseEquation` accepts the text and
+returns `Eqn.paren e` — `e` with a `group` node exactly where the printer wrote a parenthesis, the outermost
+excepted —, which prints identically and has the same script template up to `group` operators (evaluates
+identically). Proved by induction through `readEq`, `precedentCorrect` (`prec_correct_general`) and
+`reduceGroups`; no enumeration, no exception in this class.
+
+`…_partial`: excluded (covered by the finite boxes above and the correspondence run only) are equations
+with `Get`/`Length`/`Count` nodes (path operands), float, list and regex constants; the full statement is
+the second half of `C14_full`. -/
+theorem eqn_roundtrip_partial (e : Eqn) (h : e.okS = true) :
+    ∃ s, eqnString e = some s ∧ parseEquation s = some e.paren ∧ eqnString e.paren = some s ∧
+      sameTemplate e.paren.build e.build = true := by
+  obtain ⟨s, h1, h2⟩ := parseEquation_print e h
+  exact ⟨s, h1, h2, by rw [← h1]; exact print_paren_self e h true, sameTemplate_of_normL (normL_build_paren e h)⟩
+
+theorem eqn_roundtrip_bool (e : Eqn) (h : e.okS = true) : roundTripsEqn e = true := roundTripsEqn_okS e h
+
+/-- the class is inside the constructible equations -/
+theorem okS_ok : ∀ e : Eqn, e.okS = true → e.ok = true := by
+  intro e
+  induction e with
+  | val v => intro h; cases v <;> simp_all [Eqn.okS, Eqn.ok, Val.simple, Val.ok]
+  | un o l ih =>
+    intro h
+    simp only [Eqn.okS, Bool.and_eq_true, beq_iff_eq] at h
+    simp [Eqn.ok, h.1, ih h.2]
+  | bin o l r ihl ihr =>
+    intro h
+    simp only [Eqn.okS, Bool.and_eq_true] at h
+    simp only [Eqn.ok, h.1, ihl h.2.1, ihr h.2.2, Bool.and_self]
+
+/-- the hypothesis holds for `!(1 - (2 - 'a\xff')) && match(null, true || false) ~= Nothing` -/
+example : Eqn.okS (.bin Gen.JpOps.op_and
+    (.un Gen.JpOps.op_not (.bin Gen.JpOps.op_sub (.val (.int 1)) (.bin Gen.JpOps.op_sub (.val (.int 2)) (.val (.str [97, 0xFF])))))
+    (.bin Gen.JpOps.op_rx (.bin Gen.JpOps.op_match (.val .null) (.bin Gen.JpOps.op_or (.val (.bool true)) (.val (.bool false))))
+      (.val .nothing))) = true := by decide
 
 end OjgVerif.C14
